@@ -7,6 +7,7 @@ import (
 	"reflect"
 	"sort"
 	"strings"
+	"sync/atomic"
 	"time"
 
 	"github.com/metrico/qryn/reader/logql/logql_parser"
@@ -36,7 +37,7 @@ type scripted struct {
 	msgs   [][]UEntry
 	fpOf   func(map[string]string) uint64
 	sent   int
-	closed bool
+	closed atomic.Bool
 }
 
 func (s *scripted) IsMatrix() bool { return false }
@@ -44,7 +45,7 @@ func (s *scripted) IsMatrix() bool { return false }
 func (s *scripted) Process(ctx *shared.PlannerContext, _ chan []shared.LogEntry) (chan []shared.LogEntry, error) {
 	out := make(chan []shared.LogEntry)
 	go func() {
-		defer func() { s.closed = true; close(out) }()
+		defer func() { s.closed.Store(true); close(out) }()
 		for _, m := range s.msgs {
 			msg := make([]shared.LogEntry, len(m))
 			for i, e := range m {
@@ -137,9 +138,23 @@ type OEntry struct {
 	Err    string            `json:"err,omitempty"`
 }
 
+// Rewrite: a message that no longer reads as it read when it was received (InProcMem!DeliveredStable).
+type Rewrite struct {
+	Msg     int    `json:"msg"`     // index of the message in order of delivery
+	Size    int    `json:"size"`    // its entries
+	Changed int    `json:"changed"` // entries that read differently now
+	First   int    `json:"first"`   // index of the first of them
+	Was     OEntry `json:"was"`
+	Now     OEntry `json:"now"`
+}
+
 // RunResult is everything observable at the output channel.
 type RunResult struct {
-	Msgs      [][]OEntry `json:"msgs"`
+	Msgs [][]OEntry `json:"msgs"` // every message as it read on receipt
+	// Reread: the same messages - the consumer kept every slice it received - read again after the chain had finished;
+	// set only when some message changed, Rewritten says which
+	Reread    [][]OEntry `json:"reread,omitempty"`
+	Rewritten []Rewrite  `json:"rewritten,omitempty"`
 	ProcErr   string     `json:"proc_err,omitempty"` // Process returned an error
 	Timeout   bool       `json:"timeout,omitempty"`
 	Cancelled bool       `json:"cancelled,omitempty"`
@@ -180,6 +195,10 @@ func runChain(query string, msgs [][]UEntry, rc RunCtx, inner bool) (*Built, *Ru
 		return b, res, nil
 	}
 	deadline := time.After(20 * time.Second)
+	// The consumer discipline of InProcMem.tla: every message is read completely on receipt (what a consumer that
+	// serialises at once sees) AND the slice itself is kept (what a consumer sees that is still busy with a message while
+	// the chain goes on - the HTTP exporter blocks on the client for every entry).
+	var held [][]shared.LogEntry
 loop:
 	for {
 		select {
@@ -187,31 +206,87 @@ loop:
 			if !ok {
 				break loop
 			}
-			om := make([]OEntry, len(m))
-			for i, e := range m {
-				om[i] = OEntry{Fp: e.Fingerprint, TsNs: e.TimestampNS, Line: e.Message, Value: e.Value}
-				if e.Labels != nil {
-					om[i].Labels = make(map[string]string, len(e.Labels))
-					for k, v := range e.Labels {
-						om[i].Labels[k] = v
-					}
-				}
-				if e.Err != nil {
-					if e.Err == io.EOF {
-						om[i].Err = "EOF"
-					} else {
-						om[i].Err = e.Err.Error()
-					}
-				}
-			}
-			res.Msgs = append(res.Msgs, om)
+			res.Msgs = append(res.Msgs, readMsg(m))
+			held = append(held, m)
 		case <-deadline:
 			res.Timeout = true
 			break loop
 		}
 	}
+	if !res.Timeout {
+		// the chain has finished (its output is closed); a stage that was left behind by an error or by the limit is given a
+		// moment to run out of input, then every message received is read again: a message is its receiver's once sent
+		for i := 0; i < 50 && !up.closed.Load(); i++ {
+			time.Sleep(time.Millisecond)
+		}
+		reread := make([][]OEntry, len(held))
+		for i, m := range held {
+			reread[i] = readMsg(m)
+			if rw := compareMsg(i, res.Msgs[i], reread[i]); rw != nil {
+				res.Rewritten = append(res.Rewritten, *rw)
+			}
+		}
+		if len(res.Rewritten) > 0 {
+			res.Reread = reread
+		}
+	}
 	res.UpSent = up.sent
 	return b, res, nil
+}
+
+// readMsg copies everything a consumer can read from a message.
+func readMsg(m []shared.LogEntry) []OEntry {
+	om := make([]OEntry, len(m))
+	for i, e := range m {
+		om[i] = OEntry{Fp: e.Fingerprint, TsNs: e.TimestampNS, Line: e.Message, Value: e.Value}
+		if e.Labels != nil {
+			om[i].Labels = make(map[string]string, len(e.Labels))
+			for k, v := range e.Labels {
+				om[i].Labels[k] = v
+			}
+		}
+		if e.Err != nil {
+			if e.Err == io.EOF {
+				om[i].Err = "EOF"
+			} else {
+				om[i].Err = e.Err.Error()
+			}
+		}
+	}
+	return om
+}
+
+func sameEntry(a, b *OEntry) bool {
+	if a.Fp != b.Fp || a.TsNs != b.TsNs || a.Line != b.Line || a.Err != b.Err || len(a.Labels) != len(b.Labels) ||
+		(a.Labels == nil) != (b.Labels == nil) {
+		return false
+	}
+	if a.Value != b.Value && !(a.Value != a.Value && b.Value != b.Value) {
+		return false
+	}
+	for k, v := range a.Labels {
+		if w, ok := b.Labels[k]; !ok || w != v {
+			return false
+		}
+	}
+	return true
+}
+
+func compareMsg(idx int, was, now []OEntry) *Rewrite {
+	var rw *Rewrite
+	for i := range was {
+		if i < len(now) && sameEntry(&was[i], &now[i]) {
+			continue
+		}
+		if rw == nil {
+			rw = &Rewrite{Msg: idx, Size: len(was), First: i, Was: was[i]}
+			if i < len(now) {
+				rw.Now = now[i]
+			}
+		}
+		rw.Changed++
+	}
+	return rw
 }
 
 // seriesFp is the fingerprint the scripted upstream gives a stream: any injective function of the label set will do
